@@ -1,7 +1,167 @@
 ------------------------------ MODULE ClientCer ------------------------------
-(* Client-level ceremonies (Client::register / authenticate) - placeholder, completed below. *)
+(***************************************************************************)
+(* Layer B: the WebAuthn client ceremonies of passkey-client               *)
+(* (Client::register / Client::authenticate in lib.rs, extensions.rs,      *)
+(* extensions/prf.rs) as wrappers around the CTAP2 ceremonies of           *)
+(* Ceremony.tla:                                                           *)
+(*   capability query (get_info -> store.get_info)  -> assert_domain       *)
+(*   -> client data -> PRF input conversion/validation -> rk/uv mapping    *)
+(*   -> make_credential / get_assertion (inner ceremony)                   *)
+(*   -> [register: store.get_info for credProps] -> response               *)
+(*                                                                         *)
+(* The verdict of assert_domain for the origin / RP-ID representatives     *)
+(* used in ceremonies travels in the request (req.dom), it is decided by   *)
+(* RpId.tla / checked by C01's own batch check; here it only orders the    *)
+(* steps: a rejected pair ends the ceremony before any authenticator call. *)
+(***************************************************************************)
 EXTENDS Naturals, Integers, Sequences, FiniteSets, TLC
-NewCer(op, req, env) == [api |-> "client", op |-> op, req |-> req, env |-> env, done |-> TRUE]
-Step(cfg, cer, store, nnew) == [cer |-> cer, store |-> store, nnew |-> nnew, ev |-> [ev |-> "none", d |-> [x |-> 0]]]
-ClientExplains(p, e) == TRUE
+
+C == INSTANCE Ceremony
+
+NoClient == [present |-> FALSE]
+
+\* WebAuthn mapping of residentKey / requireResidentKey / capability to the rk option (Client::map_rk)
+MapRk(cfg, req) ==
+    LET supports == cfg.disc # "nondisc" IN
+    IF ~req.authSel THEN FALSE
+    ELSE CASE req.residentKey = "required"    -> TRUE
+           [] req.residentKey = "preferred"   -> supports
+           [] req.residentKey = "discouraged" -> FALSE
+           [] OTHER                           -> req.requireRk
+
+MapUv(req) == IF req.authSel THEN req.uvreq # "discouraged" ELSE TRUE
+MapUvAuth(req) == req.uvreq # "discouraged"
+
+SupportsPrf(cfg) == cfg.hmac # "off"
+
+NoPrfIn == [given |-> FALSE, eval |-> "absent", byCred |-> <<>>, byCredGiven |-> FALSE]
+
+\* salts are named after the input they derive from; "raw:" marks a pre-hashed input used as is
+Pfx(hashed) == IF hashed THEN "raw:" ELSE ""
+
+\* ---- registration: registration_prf_to_ctap2_input --------------------------------------------
+\* result [werr, prf (ctap-shaped), raw (salts are the inputs themselves)]
+RegOne(cfg, p, hashed) ==
+    \* p: the prf or prfAlreadyHashed member: [given, eval, byCredGiven, badlen]
+    IF ~p.given THEN [werr |-> "none", some |-> FALSE, prf |-> NoPrfIn, raw |-> hashed]
+    ELSE IF p.byCredGiven THEN [werr |-> "NotSupportedError", some |-> FALSE, prf |-> NoPrfIn, raw |-> hashed]
+    ELSE IF ~SupportsPrf(cfg) THEN [werr |-> "none", some |-> FALSE, prf |-> NoPrfIn, raw |-> hashed]
+    ELSE IF hashed /\ p.badlen /\ p.eval # "absent"
+         THEN [werr |-> "ValidationError", some |-> FALSE, prf |-> NoPrfIn, raw |-> hashed]
+    ELSE [werr |-> "none", some |-> TRUE,
+          prf |-> [given |-> TRUE, eval |-> p.eval, byCred |-> <<>>, byCredGiven |-> FALSE], raw |-> hashed]
+
+Member(c, hashed) ==
+    IF hashed THEN [given |-> c.kind \in {"hashed", "both"}, eval |-> c.eval, byCred |-> c.byCred,
+                    byCredGiven |-> c.byCredGiven, badlen |-> c.badlen]
+    ELSE [given |-> c.kind \in {"prf", "both"}, eval |-> c.eval, byCred |-> c.byCred,
+          byCredGiven |-> c.byCredGiven, badlen |-> FALSE]
+
+RegPrf(cfg, c) ==
+    LET a == RegOne(cfg, Member(c, FALSE), FALSE) IN
+    IF a.werr # "none" \/ a.some THEN a ELSE RegOne(cfg, Member(c, TRUE), TRUE)
+
+\* ---- authentication: auth_prf_to_ctap2_input --------------------------------------------------
+\* per-credential keys: a credential id, or "k:empty" / "k:bad64" (malformed), or an id not in the allow list
+BadKey(k) == k \in {"k:empty", "k:bad64"}
+AuthOne(cfg, req, p, hashed) ==
+    IF ~SupportsPrf(cfg) THEN [werr |-> "none", some |-> FALSE, prf |-> NoPrfIn, raw |-> hashed]
+    ELSE IF p.given /\ p.byCredGiven /\ p.byCred # <<>> /\ (~req.allowGiven \/ req.allow = <<>>)
+         THEN [werr |-> "NotSupportedError", some |-> FALSE, prf |-> NoPrfIn, raw |-> hashed]
+    ELSE IF p.given /\ p.byCredGiven /\ \E i \in 1..Len(p.byCred) : p.byCred[i].id = "k:bad64"
+         THEN [werr |-> "SyntaxError", some |-> FALSE, prf |-> NoPrfIn, raw |-> hashed]
+    ELSE IF p.given /\ p.byCredGiven /\ \E i \in 1..Len(p.byCred) :
+                \/ p.byCred[i].id = "k:empty"
+                \/ (req.allowGiven /\ \A j \in 1..Len(req.allow) : req.allow[j] # p.byCred[i].id)
+         THEN [werr |-> "SyntaxError", some |-> FALSE, prf |-> NoPrfIn, raw |-> hashed]
+    ELSE IF p.given /\ hashed /\ p.badlen /\ (p.eval # "absent" \/ (p.byCredGiven /\ p.byCred # <<>>))
+         THEN [werr |-> "ValidationError", some |-> FALSE, prf |-> NoPrfIn, raw |-> hashed]
+    ELSE IF ~p.given THEN [werr |-> "none", some |-> FALSE, prf |-> NoPrfIn, raw |-> hashed]
+    ELSE [werr |-> "none", some |-> TRUE,
+          prf |-> [given |-> TRUE, eval |-> p.eval, byCred |-> p.byCred, byCredGiven |-> p.byCredGiven], raw |-> hashed]
+
+AuthPrf(cfg, req, c) ==
+    LET a == AuthOne(cfg, req, Member(c, FALSE), FALSE) IN
+    IF a.werr # "none" \/ a.some THEN a ELSE AuthOne(cfg, req, Member(c, TRUE), TRUE)
+
+-----------------------------------------------------------------------------
+NewCer(op, req, env) ==
+    [api |-> "client", op |-> op, req |-> req, env |-> env, pc |-> "begin", ncount |-> 0,
+     in |-> C!NewCer("ctap2", op, req, env), raw |-> FALSE, endd |-> C!EndErr(0), done |-> FALSE]
+
+Res(cer, store, nnew, ev) == [cer |-> cer, store |-> store, nnew |-> nnew, ev |-> ev]
+
+Cancel(cer, store, nnew) ==
+    Res([cer EXCEPT !.done = TRUE, !.pc = "cancelled"], store, nnew, C!Ev("Cancel", [after |-> cer.ncount]))
+
+InfoEv(cfg, store) ==
+    C!StoreEv("info", FALSE, <<>>, "none", C!NoCred, TRUE, 0, <<>>, C!Listing(cfg, store), FALSE)
+
+\* a WebAuthn-level error result
+WErr(name, code) == [C!EndErr(code) EXCEPT !.werr = name]
+
+Finish(cer, store, nnew, d) ==
+    Res([cer EXCEPT !.done = TRUE, !.pc = "done"], store, nnew, C!Ev("End", d))
+
+\* rename the salts of a PRF output when the inputs were pre-hashed
+RawSalt(raw, p) == IF raw /\ p.sec # "absent" THEN [p EXCEPT !.salt = "raw:" \o p.salt] ELSE p
+
+RegClient(cfg, cer, rk) ==
+    [present |-> TRUE, cdType |-> "webauthn.create", chalOk |-> TRUE, originOk |-> TRUE, crossOrigin |-> FALSE,
+     copiesEqual |-> TRUE, attFmt |-> "none", idOk |-> TRUE, rawIdOk |-> TRUE, coseEqDer |-> TRUE, algReported |-> -7,
+     credProps |-> IF cer.req.credProps = "true" THEN (IF C!Discoverable(cfg, rk) THEN "true" ELSE "false") ELSE "absent",
+     orderOk |-> TRUE]
+
+AuthClient ==
+    [present |-> TRUE, cdType |-> "webauthn.get", chalOk |-> TRUE, originOk |-> TRUE, crossOrigin |-> FALSE,
+     copiesEqual |-> TRUE, attFmt |-> "none", idOk |-> TRUE, rawIdOk |-> TRUE, coseEqDer |-> TRUE, algReported |-> 0,
+     credProps |-> "absent", orderOk |-> TRUE]
+
+\* wrap a step of the inner CTAP2 ceremony
+Wrap(cfg, cer, r) ==
+    LET cer2 == [cer EXCEPT !.in = r.cer, !.ncount = r.cer.ncount] IN
+    IF r.ev.ev = "Cancel" THEN Res([cer2 EXCEPT !.done = TRUE, !.pc = "cancelled"], r.store, r.nnew, r.ev)
+    ELSE IF r.ev.ev # "End" THEN Res([cer2 EXCEPT !.pc = "c.inner"], r.store, r.nnew, r.ev)
+    ELSE IF ~r.ev.d.ok
+         THEN Finish(cer2, r.store, r.nnew,
+                     IF cer.op = "ga" /\ r.ev.d.err = C!NoCredentials THEN WErr("CredentialNotFound", 0)
+                     ELSE WErr("AuthenticatorError", r.ev.d.err))
+    ELSE IF cer.op = "mc"
+         THEN \* credProps needs the store capability: one more capability query
+              IF cer.env.cancelAt = cer2.ncount THEN Cancel(cer2, r.store, r.nnew)
+              ELSE Res([cer2 EXCEPT !.pc = "c.info2", !.ncount = cer2.ncount + 1, !.endd = r.ev.d], r.store, r.nnew,
+                       InfoEv(cfg, r.store))
+         ELSE Finish(cer2, r.store, r.nnew,
+                     [r.ev.d EXCEPT !.client = AuthClient, !.prf1 = RawSalt(cer.raw, r.ev.d.prf1),
+                                    !.prf2 = RawSalt(cer.raw, r.ev.d.prf2)])
+
+DefaultAlgs == <<"ES256", "RS256">>
+
+Step(cfg, cer, store, nnew) ==
+    CASE cer.pc = "begin" ->
+           IF cer.env.cancelAt = 0 THEN Cancel(cer, store, nnew)
+           ELSE Res([cer EXCEPT !.pc = "c.info1", !.ncount = 1], store, nnew, InfoEv(cfg, store))
+      [] cer.pc = "c.info1" ->
+           IF cer.env.cancelAt = cer.ncount THEN Cancel(cer, store, nnew)
+           ELSE IF cer.req.dom # "ok" THEN Finish(cer, store, nnew, WErr(cer.req.dom, 0))
+           ELSE LET p == IF cer.op = "mc" THEN RegPrf(cfg, cer.req.cprf) ELSE AuthPrf(cfg, cer.req, cer.req.cprf) IN
+                IF p.werr # "none" THEN Finish(cer, store, nnew, WErr(p.werr, 0))
+                ELSE LET rk == IF cer.op = "mc" THEN MapRk(cfg, cer.req) ELSE FALSE
+                         ireq == [cer.req EXCEPT
+                                    !.algs = IF cer.op = "mc" /\ cer.req.algs = <<>> THEN DefaultAlgs ELSE cer.req.algs,
+                                    !.rk = rk, !.up = TRUE,
+                                    !.uv = IF cer.op = "mc" THEN MapUv(cer.req) ELSE MapUvAuth(cer.req),
+                                    !.pinAuth = FALSE, !.hs = "absent",
+                                    !.prf = IF p.some THEN p.prf ELSE NoPrfIn]
+                         inner == [C!NewCer("ctap2", cer.op, ireq, cer.env) EXCEPT !.ncount = cer.ncount]
+                     IN Wrap(cfg, [cer EXCEPT !.raw = p.raw], C!Step(cfg, inner, store, nnew))
+      [] cer.pc = "c.inner" -> Wrap(cfg, cer, C!Step(cfg, cer.in, store, nnew))
+      [] cer.pc = "c.info2" ->
+           IF cer.env.cancelAt = cer.ncount THEN Cancel(cer, store, nnew)
+           ELSE Finish(cer, store, nnew,
+                       [cer.endd EXCEPT !.client = RegClient(cfg, cer, cer.in.req.rk),
+                                        !.prf1 = RawSalt(cer.raw, cer.endd.prf1),
+                                        !.prf2 = RawSalt(cer.raw, cer.endd.prf2)])
+
+ClientExplains(p, e) == p = e
 =============================================================================
